@@ -55,6 +55,12 @@ _REQ = {
     "nearmiss:blank": 1000,
     "nearmiss:underscore-dot": 1000,
     "padded_valid_parts": 500,
+    "rgb24_gray_diagonal": 2560,
+    "padded:space": 2000,
+    "padded:tab": 2000,
+    "padded:newline": 2000,
+    "padded:mixed": 2000,
+    "clause:padded_equals_compact": 10000,
     "directed_signed:h": 1000,
     "directed_signed:g": 1000,
     "directed_signed:g#": 1000,
@@ -96,7 +102,10 @@ RULE = (
 ASSUMES = [
     "reference reader of the documented language: colour tokens are exactly ''/default, the 16 names, h<0..255 decimal "
     "without leading zeros> (<=87 at depth 88), #<3 hex>, #<6 hex>, g<0..100>, g#<2 hex>; hex digits in either case; "
-    "foreground = comma separated parts, blanks/tabs around parts ignored; background = one colour token",
+    "foreground = comma separated parts; any number of blanks, tabs and newlines around a part is layout and is ignored "
+    "(measured: the unchanged tree accepts pads of 1..1000 of each at every depth and builds the compact spec), so a "
+    "padded foreground must be accepted AND equal its compact spelling; other whitespace characters around a part and "
+    "any whitespace around the background (the tree does not strip it) are grey zone; background = one colour token",
     "strings that only Python int() leniency makes readable AND whose value under int() lies inside the documented range "
     "of their form (h+5, h-0, h 5, h1_0, leading zeros, 0x, non-ASCII decimal digits, 'g#f'; also an empty part next to a "
     "colour) are in a grey zone; a negative or out-of-range value (h-5, g-3, g#-f, #-12) or a string int() cannot read "
@@ -210,7 +219,7 @@ def parse_fg(s: str):
     colours = []
     lenient = None
     for raw in s.split(","):
-        p = raw.strip(" \t")
+        p = raw.strip(" \t\n")
         if p != raw.strip():
             p = raw.strip()
             lenient = "odd-whitespace"
@@ -643,6 +652,22 @@ def judge(fg: str, bg: str, depth: int, C: Counter | None = None, level: int = 0
                 bad(f"C18|describe|background|kind-changed|{kinds}|depth={depth}", f"{bd!r} for {cb}")
             if depth == TRUE and is_high(cb) and dk[0] != "rgb24":
                 bad(f"C18|describe|background|not-#rrggbb-at-true-colour|{kinds}", f"{bd!r}")
+
+    # ---- layout: any amount of whitespace around the foreground parts == the compact spelling
+    compact = ",".join(p.strip() for p in fg.split(","))
+    if compact != fg:
+        cnt("clause:padded_equals_compact")
+        try:
+            cs = AttrSpec(compact, bg, depth)
+            if cs != a or a != cs:
+                bad(f"C18|layout|padded-differs-from-compact|{kinds}|depth={depth}", f"AttrSpec({compact!r}, {bg!r}, {depth}) != padded spelling")
+            elif hash(cs) != obs["hash"]:
+                bad(f"C18|hash|equal-specs-different-hash|padded-vs-compact|{kinds}|depth={depth}", "equal but hashes differ")
+        except Exception as e:  # noqa: BLE001
+            bad(
+                f"C18|layout|padded-accepted-compact-raises:{type(e).__name__}|{kinds}|depth={depth}",
+                f"AttrSpec({compact!r}, {bg!r}, {depth}) raised {type(e).__name__}: {e}",
+            )
 
     # ---- round trip, hash, idempotence (valid and grey-zone-accepted alike)
     b = None
@@ -1083,6 +1108,28 @@ def run(ctx):
                 evaluate(ctx, f"{lpad}{base}{rpad}", "", d)
                 evaluate(ctx, f"bold,{lpad}{base}{rpad},underline", "dark blue" if d >= 16 else "", d)
                 ctx.count("padded_valid_parts", 2)
+    # layout sweep: pad lengths x pad kinds x sides x the longest token of every form / a setting, settings before/after
+    pad_tokens = ["light magenta", "default", "h255", "#12ab9f", "#9af", "g100", "g#c8", "dark gray", ""]
+    pad_kinds = {"space": " ", "tab": "\t", "newline": "\n", "mixed": "\n \t "}
+    for tok in pad_tokens:
+        for n in (0, 1, 2, 3, 5, 8, 13, 21, 100, 1000):
+            for kname, unit in pad_kinds.items():
+                pad = (unit * n)[:n]
+                for lp, rp in ((pad, ""), ("", pad), (pad, pad)):
+                    idx += 1
+                    if not ctx.mine(idx) or (n == 1000 and kname != "mixed"):
+                        continue
+                    part = lp + tok + rp
+                    for d in DEPTHS:
+                        evaluate(ctx, part, "", d)
+                        evaluate(ctx, f"bold,{part}", "dark blue" if d >= 16 else "", d)
+                        evaluate(ctx, f"{part},strikethrough,blink", "", d)
+                        evaluate(ctx, f"{lp}standout{rp},{part},{lp}underline{rp}", "", d)
+                        evaluate(ctx, tok, part, d)  # padded background: grey zone, must not crash
+                        ctx.count(f"padded:{kname}", 5)
+    if ctx.shard == 3 % ctx.nshards:
+        ctx.sample({"fg": "\n        light magenta,\n        bold,\n        underline\n    ", "bg": "", "depth": 16})
+    done["layout: 9 tokens x pads {0,1,2,3,5,8,13,21,100,1000} x {space,tab,newline,mixed} x {left,right,both} x 5 arrangements x 5 depths"] = True
     done["near-miss numeric tokens (15 bases x 8 character classes x every position) x {fg,bg} x 5 depths"] = True
     if ctx.shard == 1 % ctx.nshards:
         ctx.sample({"fg": "h\u00b2", "bg": "g#\u2460\u2460", "depth": 256})
@@ -1116,6 +1163,14 @@ def run(ctx):
                         continue
                     for b in ivals[:: ctx.pick(9, 3)]:
                         evaluate(ctx, "#%02x%02x%02x" % (r, g, b), "#%02x%02x%02x" % (b, r, g), d)
+    # the gray diagonal #vvvvvv, every v, both sides (cube entry expected at 88/256, exact at 2**24)
+    for d in DEPTHS:
+        for v in range(256):
+            idx += 1
+            if ctx.mine(idx):
+                evaluate(ctx, "#%02x%02x%02x" % (v, v, v), "", d)
+                evaluate(ctx, "", "#%02X%02X%02X" % (v, v, v), d)
+                ctx.count("rgb24_gray_diagonal", 2)
     done["#rrggbb: each component 0..255 with the others at 00/87/ff, 5 depths"] = True
     ctx.extra["interesting_value_grid_complete_in_budget"] = grid_complete
     n_samp = ctx.pick(20000, 60000) // ctx.nshards
